@@ -10,8 +10,7 @@
   programs).  Proofs: Proofs/MiniVM{Yields,Compile,Refine,Prog}.lean.
 
   Scope of the claim: the fragment, and the model's abstractions listed in Model/MiniVM.lean
-  (stacks as immutable lists — justified by Props/C01Stack.lean —, the closure slot of a frame
-  kept in the frame).  For the rest of the core grammar agreement with `Spec.eval` is observed
+  (the persistent stacks as immutable lists — justified by Props/C01Stack.lean).  For the rest of the core grammar agreement with `Spec.eval` is observed
   (stream `eval`), not proved; the framework has no full compiler/VM model against which the full
   statement (DESIGN §6 C01.3 `compile_refines_spec`) could be written down.
 -/
@@ -23,24 +22,27 @@ open Gojq Gojq.MiniVM
     as `compileFuncDef` does (`FuncsOK`).  Take ANY query `q` of the fragment whose code sits at
     `p` inside the scope entered at `e` of function `g`; start the machine there with ANY input
     `v` on ANY stack `S`, ANY pending forks `F`, registers `R`, offset `o` above the scope's static
-    registers, and frames `fr` whose top is that scope and which realise the closure
-    environment `ρ` (`EnvRel`: walking `outerindex` finds the frame of `g`, whose parameter slot
-    holds the code of the argument and the frame it was created in, recursively).  Then, if the
-    reference evaluation with fuel `n` does not run out of fuel, the machine `Yields` exactly
-    its outputs: for each output `w` in order it reaches the exit `p + len` with `w :: S` on the
-    stack, the same frames, registers changed only in the scope's own static registers and
-    above `o`, and — whatever the rest of the program does to registers outside those it must
-    keep — resumes from the forks it left pending; after the last output it fails into `F`
-    carrying the error the reference evaluation ends with (or none). -/
+    registers, and frames `fr` whose top is that scope and which — together with the registers
+    in a set `P` lying below the segment's own — realise the closure environment `ρ` (`EnvRel`:
+    walking `outerindex` finds the frame of `g`, whose register 1 holds the closure: the code of
+    the argument and the frame it was created in, recursively).  Then, if the reference evaluation
+    with fuel `n` does not run out of fuel, the machine `Yields` exactly its outputs: for each
+    output `w` in order it reaches the exit `p + len` with `w :: S` on the stack, the same frames,
+    registers changed only in the scope's own static registers and above `o` (never in `P`),
+    and — whatever the rest of the program does to registers other than those it must keep
+    (the static ones, `P`, and the frames allocated so far) — resumes from the forks it left
+    pending; after the last output it fails into `F` carrying the error the reference
+    evaluation ends with (or none). -/
 theorem compile_yields {code defs entry nf} (hfun : FuncsOK code defs entry nf)
     (n : Nat) (q : Q) (g : Option Name) (e p : Nat) (hep : e ≤ p) (hseg : Seg code p (compile entry g e p q))
     (hcl : q.Closed nf) (ρ : Clo) (v : V) (S : List SV) (F : List Fork) (R : Regs) (fr : List Frame) (o : Nat) (cp : CP)
-    (htop : TopIs fr e (p - e)) (hge : scopeOf entry g ≤ e) (hpar : q.HasParam → ρ ≠ .none)
-    (henv : EnvRel code entry nf fr (fr.length - 1) ρ g)
+    (P : Nat → Prop) (htop : TopIs fr e) (hge : scopeOf entry g ≤ e) (hpar : q.HasParam → ρ ≠ .none)
+    (hP : ∀ a, P a → a < base fr + (p - e))
+    (henv : EnvRel code entry nf P R fr (fr.length - 1) ρ g)
     (hoff : base fr + (p + (compile entry g e p q).length - e) ≤ o) (hnd : ND (eval defs n g ρ q v).stop) :
-    Yields code (Own (base fr) e p (compile entry g e p q).length) o fr F (p + (compile entry g e p q).length) S
+    Yields code (Own (base fr) e p (compile entry g e p q).length) P o fr F (p + (compile entry g e p q).length) S
       (.run p (.v v :: S) F false none R fr o cp) (eval defs n g ρ q v).outs (eval defs n g ρ q v).stop.toErr :=
-  MiniVM.compile_yields hfun n q g e p hep hseg hcl ρ v S F R fr o cp htop hge hpar henv hoff hnd
+  MiniVM.compile_yields hfun n q g e p hep hseg hcl ρ v S F R fr o cp P htop hge hpar hP henv hoff hnd
 
 /-- `def f₀(g): ., (.[] | f₀(g)); f₀(.)` : recursive descent -/
 def exProg : Prog :=
